@@ -1,6 +1,6 @@
 (* C13 -- Attention and RNNs: stepwise equals whole-sequence; padding and masks are inert. *)
 From Coq Require Import QArith.
-From Flaxm Require Import Lib.Harness Model.Seq Proofs.Seq Model.Layers Model.Attn Proofs.Attn.
+From Flaxm Require Import Lib.Harness Model.Seq Proofs.Seq Proofs.SeqBi Model.Layers Model.Attn Proofs.Attn.
 Close Scope Q_scope.
 Close Scope Z_scope.
 Open Scope nat_scope.
@@ -30,6 +30,23 @@ Theorem C13_keep_order : forall C X Y (cell : C -> X -> C * Y) (reverse : bool) 
   fst (rnn C X Y cell reverse true (Some n) c0 xs) = fst (rnn C X Y cell reverse false (Some n) c0 xs).
 Proof. exact keep_order_flips. Qed.
 Print Assumptions C13_keep_order.
+
+(* Bidirectional: at the valid positions, the forward cell looped over the valid inputs paired position-wise with the reversed
+   outputs of the backward cell looped over the valid inputs reversed (reversal within the sequence's valid length); the
+   carries are those of the two loops; padding influences neither direction *)
+Theorem C13_bidirectional : forall C1 C2 X Y (cf : C1 -> X -> C1 * Y) (cb : C2 -> X -> C2 * Y) n c1 c2 xs, 1 <= n <= length xs ->
+  let valid := firstn n xs in
+  fst (bidirectional cf cb (Some n) c1 c2 xs) = (Some (fst (loop C1 X Y cf c1 valid)), Some (fst (loop C2 X Y cb c2 (rev valid)))) /\
+  firstn n (snd (bidirectional cf cb (Some n) c1 c2 xs)) =
+    combine (snd (loop C1 X Y cf c1 valid)) (rev (snd (loop C2 X Y cb c2 (rev valid)))).
+Proof. exact @bidirectional_spec. Qed.
+Print Assumptions C13_bidirectional.
+Theorem C13_bidirectional_padding_inert : forall C1 C2 X Y (cf : C1 -> X -> C1 * Y) (cb : C2 -> X -> C2 * Y) n c1 c2 xs xs',
+  1 <= n <= length xs -> length xs = length xs' -> firstn n xs = firstn n xs' ->
+  fst (bidirectional cf cb (Some n) c1 c2 xs) = fst (bidirectional cf cb (Some n) c1 c2 xs') /\
+  firstn n (snd (bidirectional cf cb (Some n) c1 c2 xs)) = firstn n (snd (bidirectional cf cb (Some n) c1 c2 xs')).
+Proof. exact @bidirectional_padding_inert. Qed.
+Print Assumptions C13_bidirectional_padding_inert.
 
 (* decoding with a cache: for every attention function, sequence and cache size, feeding the positions one at a time
    gives row t of whole-sequence attention under the causal mask, and the cache index ends at the number of steps *)
